@@ -845,6 +845,9 @@ func checkC02(c c02Case) obs.Result {
 			m := &c02Model{templates: decls, external: ext, usedT: map[string]bool{},
 				ch: c02Choices{DynamicFailureIsNoMatch: mask&1 != 0, ArgFailureIgnored: mask&2 != 0}}
 			val, merr := m.eval(fo, node, false, true)
+			if merr == nil && c02NonFinite(val) {
+				merr = c02Failf("NaN / Inf cannot be emitted as JSON")
+			}
 			var want string
 			if merr != nil {
 				if _, isFail := merr.(*c02Fail); !isFail {
